@@ -188,6 +188,10 @@ def classes(ctx, dev, dev3, other):
     def wrong_shape(x, y, z):
         return np.zeros((len(x) + 1, 3))
     yield "vector-potential-shape", "gross", solve(applied_vector_potential=wrong_shape), (ValueError,)
+    # wrong shapes that numpy could broadcast to (n_edges, 2): one number per position, a single column
+    yield "vector-potential-shape:(n,)", "gross", solve(applied_vector_potential=lambda x, y, z: 0.1 * np.ones(len(x))), (ValueError, IndexError)
+    yield "vector-potential-shape:(n,1)", "gross", solve(applied_vector_potential=lambda x, y, z: 0.1 * np.ones((len(x), 1))), (ValueError, IndexError)
+    yield "vector-potential-shape:(n,4)", "gross", solve(applied_vector_potential=lambda x, y, z: 0.1 * np.ones((len(x), 4))), (ValueError, IndexError)
 
     # invalid polygons and device definitions (nothing can be written by these, but nothing may appear either)
     bowtie = np.array([[0, 0], [2, 2], [2, 0], [0, 2]], dtype=float)
